@@ -811,10 +811,31 @@ impl PG<'_> {
                 }
             }
             2 => {
+                // multiply around the LIMITS sizes: 256/257-byte operands (also 257 bytes = 0x00 + 256 bytes with the
+                // top bit set, whose MAGNITUDE is 256 bytes), products crossing 1024 bytes with a small last factor
                 let n = *self.r.pick(&[256usize, 257]);
                 let mut big = self.r.bytes(n);
                 big[0] &= 0x7f;
-                list_json(&[atom_json(&[18]), q(atom_json(&big)), q(int_atom(self.r.range(-3, 300)))])
+                if n == 257 && self.r.chance(1, 2) {
+                    big[0] = 0;
+                    big[1] |= 0x80;
+                }
+                if self.r.chance(1, 3) {
+                    let mut a256 = vec![0xffu8; 256];
+                    a256[0] = 0x7f;
+                    let k = 4 + self.r.below(2) as usize;
+                    let mut items = vec![atom_json(&[18])];
+                    for _ in 0..k {
+                        items.push(q(atom_json(&a256)));
+                    }
+                    items.push(q(int_atom(*self.r.pick(&[0x7fffi64, 2, 0, 1, 300]))));
+                    if self.r.chance(1, 2) {
+                        items.push(q(int_atom(self.r.range(0, 3))));
+                    }
+                    list_json(&items)
+                } else {
+                    list_json(&[atom_json(&[18]), q(atom_json(&big)), q(int_atom(self.r.range(-3, 300)))])
+                }
             }
             3 => {
                 // unknown operator with well-formed arguments
@@ -1309,6 +1330,13 @@ fn main() {
                 let mut pg = PG { r: &mut r, newer: !classic_only, guards: true, crypto: !classic_only && profile != "C08x", unknown: true };
                 let depth = 1 + pg.r.below(4) as u32;
                 let p = match profile.as_str() {
+                    "C05" if pg.r.chance(1, 8) => {
+                        // the operand-size restrictions (LIMITS / DISABLE_OP, old cost model) on every build variant
+                        if pg.r.chance(2, 3) { base_flags |= 0x0040; }
+                        if pg.r.chance(1, 3) { base_flags |= 0x0200; }
+                        if pg.r.chance(2, 3) { base_flags &= !0x2000; }
+                        pg.restrict_expr(depth)
+                    }
                     "C05" => pg.fast_expr(depth),
                     "C04" if pg.r.chance(1, 2) => pg.gc_expr(1),
                     "C07" if pg.r.chance(1, 2) => pg.restrict_expr(depth),
